@@ -122,6 +122,18 @@ def run(ctx: Ctx) -> Result:
                 except BaseException as e: got = 'ERR:' + type(e).__name__
                 if got != want:
                     viol({'what': 'compile', 'source': src}, want.hex(), got.hex() if isinstance(got, bytes) else got)
+            if cnt in (0, 1, 0x80, 0xff):
+                # a NOP name is an instruction name in every context: after other instructions, inside blocks, and right after the
+                # one-symbol forms of the explicit pushes (whose look-ahead must recognise it as a name, not a value)
+                ctxs = ((f'true {name} d{signed} false', b'\x01' + want + b'\x00'), (f'OP_PUSH1 x2a {name} d{signed}', b'\x03\x01\x2a' + want),
+                        (f'OP_PUSH2 x2a2b {name.lower()} x{cnt:02x} true', b'\x04\x00\x02\x2a\x2b' + want + b'\x01'), (f'push1 x01 {name} d{signed}', b'\x03\x01\x01' + want),
+                        (f'true if {{ {name} d{signed} }}', b'\x01\x2b\x00\x02' + want), (f'def 0 {{ {name} d{signed} }}', b'\x29\x00\x00\x02' + want))
+                for src, w2 in ctxs:
+                    res.note_case(('asm-ctx', src))
+                    try: got = P.compile_script(src)
+                    except BaseException as e: got = 'ERR:' + type(e).__name__
+                    if got != w2:
+                        viol({'what': 'compile', 'source': src}, w2.hex(), got.hex() if isinstance(got, bytes) else got)
             try: lst = P.decompile_script(want)
             except BaseException as e: lst = 'ERR:' + type(e).__name__
             if lst != [f'{name} d{signed}']:
